@@ -25,7 +25,7 @@ import re
 import sys
 
 sys.path.insert(0, os.path.dirname(os.path.abspath(__file__)))
-from rustscan import Lost, code_mask, item_span, fn_span, loops, find_code, match_close  # noqa: E402
+from rustscan import BODY_MARK, Lost, code_mask, item_span, fn_span, loops, find_code, match_close  # noqa: E402
 
 OPEN = '::vstd::prelude::verus!{\n'
 CLOSE = '\n} // verus!\n'
@@ -64,9 +64,9 @@ def parse_vc(path):
             kind = parts[0]
             arg = parts[1].strip() if len(parts) > 1 else ''
             sec = Section(kind, arg, lineno, path)
-            if kind in ('item', 'split', 'module', 'root'):
+            if kind in ('item', 'split', 'module', 'root', 'in'):
                 tops.append(sec)
-                if kind in ('item', 'split'):
+                if kind in ('item', 'split', 'in'):
                     cur_top = sec
                     cur_fn = None
                 elif kind == 'module':
@@ -112,7 +112,8 @@ def find_anchor(s, m, anchor, bo, bc, where):
     return ms[0].start(), ms[0].end()
 
 
-def apply_fn_sections(s, fnsec, item_lo, item_hi, log):
+def apply_fn_sections(s, fnsec, item_lo, item_hi, log, copies):
+    from rustscan import next_code_char as next_code_char_
     """apply all sub-sections of one fn; returns new text. Positions recomputed after each edit."""
     name = fnsec.arg.split()[0]
     # process sections in an order that keeps earlier anchors valid: we recompute spans each time
@@ -137,7 +138,7 @@ def apply_fn_sections(s, fnsec, item_lo, item_hi, log):
                 sig_tail = ''
             else:
                 raise Lost('%s: unexpected signature tail %r' % (where, tail))
-            s = s[:pc + 1] + sig_tail + '\n' + txt + s[bo:]
+            s = s[:pc + 1] + sig_tail + '\n' + txt + BODY_MARK + s[bo:]
         elif sub.kind == 'head':
             s = s[:bo + 1] + '\n' + txt + s[bo + 1:]
         elif sub.kind == 'loop':
@@ -150,6 +151,21 @@ def apply_fn_sections(s, fnsec, item_lo, item_hi, log):
             while s[j - 1] in ' \t\n':
                 j -= 1
             s = s[:j] + '\n' + txt + s[lb:]
+        elif sub.kind == 'copybody':
+            # X11: the body of a trait default method is verified as a free function with the same
+            # text (the default itself becomes external_body); payload = spec clauses of the copy
+            po = next_code_char_(s, m, s.index('fn ' + name, ls), '(')
+            pc = match_close(s, m, po, '(', ')')
+            params = s[po + 1:pc]
+            params = re.sub(r'^\s*&(?:mut )?self\s*,?', '', params)
+            tail = s[pc + 1:bo]
+            rm = re.match(r'^\s*->\s*\(r: (.+?)\)\s', tail + ' ', flags=re.S) or re.match(r'^\s*->\s*(.+?)\s*(?:ensures|requires|$)', tail, flags=re.S)
+            if not rm:
+                raise Lost('%s: copybody needs a return type' % where)
+            ret = rm.group(1)
+            ret = ret.replace('Self::', '')
+            body = s[bo:bc + 1]
+            copies.append('pub fn %s(%s) -> (r: %s)\n%s%s\n' % (sub.arg, params, ret, txt, body))
         elif sub.kind == 'before':
             a, b = find_anchor(s, m, sub.arg, bo, bc, where)
             la = s.rfind('\n', 0, a) + 1
@@ -192,7 +208,7 @@ def inject(s, vc_files):
                 s = s[:k] + OPEN + top.text() + CLOSE + s[k:]
                 continue
             # item / split
-            if top.kind == 'item':
+            if top.kind in ('item', 'in'):
                 pat, nth = split_nth(top.arg)
                 fn_names = None
             else:
@@ -227,6 +243,10 @@ def inject(s, vc_files):
                 nb_start = len(orig) + 1 + len(OPEN)
                 item_lo = nb_start
                 info['rewrites'].append(('X9', pat, len(spans)))
+            elif top.kind == 'in':
+                # re-open an item that an earlier section already wrapped
+                s = s[:bc + 1] + marker + s[bc + 1:]
+                item_lo = ls
             else:
                 s = s[:st] + OPEN + s[st:bc + 1] + CLOSE + marker + '\n' + s[bc + 1:]
                 item_lo = st + len(OPEN)
@@ -238,6 +258,7 @@ def inject(s, vc_files):
                     b = s.index('{', b + 1)
                 return match_close(s, mm_, b) + 1
             info['items'].append((os.path.basename(path), top.arg))
+            copies = []
             for sub in top.subs:
                 if sub.kind == 'fn':
                     parts = sub.arg.split()
@@ -247,7 +268,13 @@ def inject(s, vc_files):
                         if p.startswith('props='):
                             props = p[6:].split(',')
                     info['fns'].setdefault(name, set()).update(props)
-                    s = apply_fn_sections(s, sub, item_lo, item_hi, log)
+                    s = apply_fn_sections(s, sub, item_lo, item_hi, log, copies)
+                    if copies:
+                        sec = Section('module', '', top.lineno, top.src)
+                        sec.owner = top
+                        sec.body = ['\n'.join(copies)]
+                        deferred.append(sec)
+                        copies = []
                 elif sub.kind == 'itemhead':
                     m2 = code_mask(s)
                     b = s.index('{', item_lo)
